@@ -172,19 +172,34 @@ Definition multi_mode_dot (T : tensor F) (Ms : list (tensor F)) (modes : option 
   mmd_loop (sort_by_mode (zip3 Ms modes)) skip tr 0 T.
 
 (* _khatri_rao.py *)
-Definition apply_w (w : option (tensor F)) (M : tensor F) : tensor F :=
-  match w with Some w => scale_cols M w | None => M end.
-Definition apply_mask (m : option (tensor F)) (M : tensor F) : tensor F :=
-  match m with Some m => scale_rows M m | None => M end.
+(* res * reshape(weights, (1, -1)) is the NumPy broadcast of (n, R) with (1, L): L = R scales the columns, L = 1 scales by one
+   scalar, any other length raises.  (The degenerate R = 1 < L, which NumPy broadcasts to an (n, L) result, is outside the
+   model: Err.)  res * reshape(mask, (-1, 1)) likewise on the rows. *)
+Definition scale_all (M : tensor F) (c : F) : tensor F := tabulate (shape M) (fun idx => get d M idx *r c).
+Definition apply_w (w : option (tensor F)) (M : tensor F) : res (tensor F) :=
+  match w with
+  | None => Ok M
+  | Some w => let L := prod (shape w) in
+      if L =? ncols M then Ok (scale_cols M w)
+      else if L =? 1 then Ok (scale_all M (nth 0 (data w) d)) else Err
+  end.
+Definition apply_mask (m : option (tensor F)) (M : tensor F) : res (tensor F) :=
+  match m with
+  | None => Ok M
+  | Some m => let L := prod (shape m) in
+      if L =? nrows M then Ok (scale_rows M m)
+      else if L =? 1 then Ok (scale_all M (nth 0 (data m) d)) else Err
+  end.
 Definition kr_valid (Ms : list (tensor F)) : bool :=
   match Ms with [] => false
   | M0 :: _ => forallb (fun M => (ndim M =? 2) && (ncols M =? ncols M0)) Ms end.
 Definition khatri_rao (Ms : list (tensor F)) (w mask : option (tensor F)) (skip : option nat) : res (tensor F) :=
   match skipl skip Ms with
   | [] => Err
-  | [M] => Ok (apply_mask mask (apply_w w M))
+  | [M] => rbind (apply_w w M) (apply_mask mask)
   | M0 :: rest =>
-      if kr_valid (M0 :: rest) then Ok (apply_mask mask (fold_left kr_step rest (apply_w w M0))) else Err
+      if kr_valid (M0 :: rest)
+      then rbind (apply_w w M0) (fun M0' => apply_mask mask (fold_left kr_step rest M0')) else Err
   end.
 
 (* _kronecker.py *)
@@ -288,7 +303,7 @@ Definition mttkrp_memory (T : tensor F) (w : option (tensor F)) (fs : list (tens
     rbind (collect (map (fun r => multi_mode_dot T (map (fun f => conj_t (column f r)) fs) None (Some mode) false)
                         (seq 0 rank))) (fun parts =>
     let St := stack_cols (nth mode (shape T) 0) parts in
-    Ok (match w with None => St | Some w => scale_cols St (conj_t w) end))
+    apply_w (match w with None => None | Some w => Some (conj_t w) end) St)
   end.
 
 (* moments.py; the model returns n_samples * moment, i.e. the sum over axis 0 (the mean divides by shape[0]) *)
@@ -358,21 +373,35 @@ Definition multi_mode_dot_e (T : tensor F) (Ms : list (tensor F)) (modes : optio
                     (mkS [] [] (seq 0 order) (order + 1) 0)) (fun st =>
   Ok (einsum (seq 0 order :: s_ins st) (s_out st) (T :: s_ops st))).
 
+(* np.einsum operand checks: the weights need exactly one axis, of length R or 1 (broadcast); the mask one axis per matrix with
+   the row counts (masks with broadcastable size-1 axes are outside the model: Err) *)
+Definition einsum_weights (R : nat) (w : option (tensor F)) : res (option (tensor F)) :=
+  match w with
+  | None => Ok None
+  | Some w =>
+      if ndim w =? 1 then
+        if prod (shape w) =? R then Ok (Some w)
+        else if prod (shape w) =? 1 then Ok (Some (tabulate [R] (fun _ => nth 0 (data w) d))) else Err
+      else Err
+  end.
 Definition khatri_rao_e (Ms : list (tensor F)) (w mask : option (tensor F)) (skip : option nat) : res (tensor F) :=
   match skipl skip Ms with
   | [] => Err
-  | [M] => Ok (apply_mask mask (apply_w w M))
+  | [M] => rbind (apply_w w M) (apply_mask mask)
   | M0 :: rest =>
       let Ms' := M0 :: rest in
       if kr_valid Ms' then
-        let n := length Ms' in
-        let individual := seq 1 n in
-        let ins := map (fun i => [i; 0]) individual
-                   ++ (match w with Some _ => [[0]] | None => [] end)
-                   ++ (match mask with Some _ => [individual] | None => [] end) in
-        let ops := Ms' ++ (match w with Some w => [w] | None => [] end)
-                       ++ (match mask with Some m => [reshape (map nrows Ms') m] | None => [] end) in
-        reshape_spec [None; Some (ncols M0)] (einsum ins (individual ++ [0]) ops)
+        rbind (einsum_weights (ncols M0) w) (fun w' =>
+        if match mask with Some m => nat_list_eq (shape m) (map nrows Ms') | None => true end then
+          let n := length Ms' in
+          let individual := seq 1 n in
+          let ins := map (fun i => [i; 0]) individual
+                     ++ (match w' with Some _ => [[0]] | None => [] end)
+                     ++ (match mask with Some _ => [individual] | None => [] end) in
+          let ops := Ms' ++ (match w' with Some w => [w] | None => [] end)
+                         ++ (match mask with Some m => [m] | None => [] end) in
+          reshape_spec [None; Some (ncols M0)] (einsum ins (individual ++ [0]) ops)
+        else Err)
       else Err
   end.
 
@@ -430,9 +459,16 @@ Definition mttkrp_e (T : tensor F) (w : option (tensor F)) (fs : list (tensor F)
     let rank := N + 1 in
     let w' := match w with Some w => w | None => ones [ncols f0] end in
     let others := not_in [mode] N in
-    if mode <? N then
+    let used := remove_nth mode fs in
+    (* np.einsum: all operands must agree on the size of a label, a size-1 axis is broadcast *)
+    let Lw := prod (shape w') in
+    let R := if Lw =? 1 then match used with f :: _ => ncols f | [] => 1 end else Lw in
+    let w'' := if Lw =? R then w' else tabulate [R] (fun _ => nth 0 (data w') d) in
+    if (mode <? N) && (ndim w' =? 1)
+       && forallb (fun f => (ndim f =? 2) && (ncols f =? R)) used
+       && nat_list_eq (map nrows used) (map (fun l => nth l (shape T) 0) others) then
       Ok (einsum ([seq 0 N; [rank]] ++ map (fun i => [i; rank]) others) [mode; rank]
-                 ([T; conj_t w'] ++ map conj_t (remove_nth mode fs)))
+                 ([T; conj_t w''] ++ map conj_t used))
     else Err
   end.
 
